@@ -1080,4 +1080,97 @@ example : ((match2dNested exParents exRecipes .integrated).rows.map fun r => r.g
 end nonvacuity
 
 
+/-! ### hypotheses as decidable input conditions; vector-valued variants -/
+
+/-- a `true` of the driver's check gives the hypotheses of the `match_1d` theorems -/
+theorem tessPair_sound (n o : List Cell) (h : tessPair n o = true) :
+    ∃ a xs ys, Tessellates n a xs ∧ Tessellates o a ys ∧ lastOr a xs = lastOr a ys := by
+  simp only [tessPair, Bool.and_eq_true, Bool.not_eq_true', decide_eq_true_eq, isTess] at h
+  obtain ⟨⟨⟨⟨hn, ho⟩, hne⟩, hoe⟩, hseg⟩ := h
+  have pn := sortCells_perm n
+  have po := sortCells_perm o
+  unfold segOf at hseg
+  cases hsn : sortCells n with
+  | nil => rw [hsn] at pn; have := pn.symm.eq_nil; subst this; simp at hne
+  | cons c t =>
+    cases hso : sortCells o with
+    | nil => rw [hso] at po; have := po.symm.eq_nil; subst this; simp at hoe
+    | cons d u =>
+      rw [hsn] at hn pn hseg
+      rw [hso] at ho po hseg
+      simp only [Prod.mk.injEq] at hseg
+      obtain ⟨e1, s1⟩ := chainOK_sound t c hn
+      obtain ⟨e2, s2⟩ := chainOK_sound u d ho
+      refine ⟨c.1, (c :: t).map (·.2), (d :: u).map (·.2), ⟨?_, s1⟩, ⟨?_, ?_⟩, ?_⟩
+      · rw [← e1]; exact pn.symm
+      · rw [hseg.1, ← e2]; exact po.symm
+      · rw [hseg.1]; exact s2
+      · rw [lastOr_map_hi, lastOr_map_hi]; exact hseg.2
+
+theorem wellFormedB_sound (nPrim nSec : Nat) (entries : List Ent) (h : wellFormedB nPrim nSec entries = true) :
+    WellFormedMap nPrim nSec entries := by
+  simp only [wellFormedB, Bool.and_eq_true, List.all_eq_true, decide_eq_true_eq, List.mem_range,
+    List.any_eq_true] at h
+  obtain ⟨⟨⟨⟨h1, h2⟩, h3⟩, h4⟩, h5⟩ := h
+  exact ⟨h1, h2, h3, h4, fun c hc => h5 c hc⟩
+
+/-- `update_mortar` with checked input: the driver's `tessPair` flag is all that is needed -/
+theorem mortar_update_valid_checked (c : Ctx) (s : Side) (newC oldC : List Cell)
+    (h : tessPair newC oldC = true) (hn : oldC.length = s.pInt.r) :
+    ValidUpd c s c (.mortar (match1d newC oldC .averaged) (match1d newC oldC .integrated)) := by
+  obtain ⟨a, xs, ys, h1, h2, h3⟩ := tessPair_sound newC oldC h
+  exact mortar_update_valid c s newC oldC a xs ys h1 h2 h3 hn
+
+theorem secondary_update_valid_checked (c : Ctx) (s : Side) (sideC cells : List Cell)
+    (h : tessPair sideC cells = true) (hn : sideC.length = s.pInt.r) :
+    ValidUpd c s ⟨c.cov, c.nP, cells.length⟩
+      (.secondary (match1d sideC cells .averaged) (match1d sideC cells .integrated)) := by
+  obtain ⟨a, xs, ys, h1, h2, h3⟩ := tessPair_sound sideC cells h
+  exact secondary_update_valid c s sideC cells a xs ys h1 h2 h3 hn
+
+example : tessPair exNew exOld = true ∧ tessPair exNew [((0:Rat), 1/2)] = false := by decide +kernel
+example : wellFormedB 6 2 exEntries = true ∧ wellFormedB 6 3 exEntries = false := by decide +kernel
+
+theorem face_update_valid_checked (P : Mat) (nNew nS : Nat) (s : Side) (old new : List FaceRec) (b : Bool)
+    (h : faceHypsB P nNew old new b = true) :
+    ValidUpd ⟨fun f => ∃ r, r ∈ old ∧ r.pos = b ∧ r.idx = f, P.c, nS⟩ s
+      ⟨fun g => ∃ r, r ∈ new ∧ r.pos = b ∧ r.idx = g, nNew, nS⟩
+      (.primary (faceMatch P nNew old new .averaged) (faceMatch P nNew old new .integrated)) := by
+  simp only [faceHypsB, Bool.and_eq_true, List.all_eq_true, decide_eq_true_eq] at h
+  obtain ⟨⟨⟨⟨⟨h1, h2⟩, h3⟩, h4⟩, h5⟩, h6⟩ := h
+  obtain ⟨a, xs, ys, t1, t2, t3⟩ := tessPair_sound _ _ h6
+  exact face_update_valid P nNew nS s old new b h1 h2 h3 h4 h5 a xs ys t1 t2 t3
+
+example : faceHypsB exP 8 exOldF exNewF false = true ∧ faceHypsB exP 8 exOldF exNewF true = true := by decide +kernel
+
+/-- the vector-valued variants (`nd > 1`) have the row sums of the scalar projection … -/
+theorem kron_rowSum (A : Mat) (nd i : Nat) (hi : i < A.r * nd) :
+    (A.kron nd).rowSum i = A.rowSum (i / nd) := by
+  unfold Mat.rowSum
+  show sumTo (A.c * nd) _ = _
+  rw [sumTo_mul_blocks]
+  exact sumTo_congr _ _ _ (fun j hj => kron_block A nd i j hi hj)
+
+
+theorem kron_T (A : Mat) (nd : Nat) : (A.kron nd).T = A.T.kron nd := by
+  show table (A.c * nd) (A.r * nd) _ = table (A.c * nd) (A.r * nd) _
+  apply table_congr
+  intro i j hi hj
+  unfold Mat.kron
+  rw [ent_table _ _ _ j i hj hi]
+  have h1 : i / nd < A.c := Nat.div_lt_of_lt_mul (by rw [Nat.mul_comm]; exact hi)
+  have h2 : j / nd < A.r := Nat.div_lt_of_lt_mul (by rw [Nat.mul_comm]; exact hj)
+  rw [ent_T A _ _ h1 h2]
+  by_cases h : i % nd = j % nd
+  · rw [if_pos h, if_pos h.symm]
+  · rw [if_neg h, if_neg (fun e => h e.symm)]
+
+/-- … and its column sums -/
+theorem kron_colSum (A : Mat) (nd j : Nat) (hj : j < A.c * nd) :
+    (A.kron nd).colSum j = A.colSum (j / nd) := by
+  have h1 : j / nd < A.c := Nat.div_lt_of_lt_mul (by rw [Nat.mul_comm]; exact hj)
+  rw [← rowSum_T (A.kron nd) j hj, kron_T, kron_rowSum A.T nd j hj, rowSum_T A _ h1]
+
+example : ((exA.kron 2).rowSum 1 = 1) ∧ (exA.kron 2).r = 4 := by decide +kernel
+
 end PorepyVerif.C26
